@@ -134,9 +134,16 @@ def local_case(draw, ctx):
 
 def local_body(ctx, case):
     j, delta = case["j"], case["delta"]
-    xs1, z1 = rfagen.run_rfa(case)
     y2 = list(case["y"])
     y2[j] = y2[j] + delta
+    if case["strategy"] in gens.ADAPTIVE:
+        sm = case["kw"].get("adaptive_smooth", 1.0)
+        if not (gens.jump_ratio_ok(case["y"], smooth=sm) and gens.jump_ratio_ok(y2, smooth=sm)):
+            # extreme jump ratios (a denormal-size change next to an O(1) jump): the adaptive factor leaves
+            # [2^-30, 2^30], the region of the known findings KF-2 / KF-3 (window rounding, overflow -> ValueError)
+            ctx.count("excluded_known_KF3")
+            return
+    xs1, z1 = rfagen.run_rfa(case)
     xs2, z2 = rfagen.run_rfa(dict(case, y=y2))
     n = case["n"]
     m = len(y2)
